@@ -40,7 +40,7 @@ CANARIES = {
     'C19': [
         {'name': 'delta-start-not-relative', 'file': 'crates/glas/src/convert.rs',
          'old': '                delta_start: start - prev_start,', 'new': '                delta_start: start,',
-         'harness': 'c19', 'doc': 'aa'},
+         'harness': 'c19', 'doc': 'aaa'},
     ],
 }
 
